@@ -102,6 +102,9 @@ class CollationManager(context_class_base):
         if collation is None:
             msg = 'collation cannot be an empty sequence'
             raise xpath_error('XPTY0004', msg, self.token)
+        elif not isinstance(collation, str):
+            msg = f'collation must be a string, not {type(collation)!r}'
+            raise xpath_error('XPTY0004', msg, self.token)
         elif not urlsplit(collation).scheme and token is not None:
             # Collation is a relative URI: try to complete with the static base URI
             base_uri = token.parser.base_uri
